@@ -23,13 +23,26 @@ ORDERS = ["bbii", "ibib", "iibb", "bibi"]
 class _RecSolver:
     """stands in for z3.Solver inside cspuz.backend.z3: records everything add()ed, then behaves like the real one"""
     log = None
+    expire = False      # environment stub for the 'time limit' scenario: a solver on which a timeout was set answers unknown
 
     def __init__(self, *a, **k):
         self._s = z3.Solver(*a, **k)
+        self._limited = False
 
     def add(self, *args):
-        _RecSolver.log.append(args)
+        if _RecSolver.log is not None:
+            _RecSolver.log.append(args)
         return self._s.add(*args)
+
+    def set(self, *a, **k):
+        if "timeout" in k or (a and a[0] == "timeout"):
+            self._limited = True
+        return self._s.set(*a, **k)
+
+    def check(self, *a):
+        if _RecSolver.expire and self._limited:
+            return z3.unknown
+        return self._s.check(*a)
 
     def __getattr__(self, name):
         return getattr(self._s, name)
@@ -61,6 +74,21 @@ def declare(s, order, doms):
     return bv, iv
 
 
+def declared(p, iv, late_iv=()):
+    """{id(variable): (lo, hi)} as DECLARED by the program text - never read back from the variable objects"""
+    return {id(v): tuple(d) for v, d in zip(iv, p["doms"])}
+
+
+def dom_formula(env, variables, decl):
+    out = []
+    for v in variables:
+        zv = env.z(v)
+        if isinstance(v, IntVar):
+            lo, hi = decl[id(v)]
+            out.append(z3.And(zv >= lo, zv <= hi))
+    return z3.And(out) if out else z3.BoolVal(True)
+
+
 def _flatten_args(args):
     out = []
     for a in args:
@@ -79,113 +107,173 @@ def _lift(t):
     return None
 
 
+def _judge(s, env, bv, iv, decl, posted, ret, step, issues, stats):
+    """compares what the back end handed to z3 (captured in _RecSolver.log), the verdict and the model with the reference meaning of
+    the descriptions posted so far; appends to issues; returns False when the session should stop"""
+    R = z3.And(dom_formula(env, s.variables, decl), *[trees.ref_desc(x, [env.z(v) for v in bv], [env.z(v) for v in iv]) for x in posted])
+    cap = []
+    for a in _flatten_args(_RecSolver.log):
+        la = _lift(a)
+        if la is None:
+            issues.append({"kind": "nonequivalent", "step": step, "detail": "untranslated constraint handed to z3: %r" % (a,)})
+            return False
+        cap.append(la)
+    t0 = time.time()
+    q = z3.Solver()
+    q.set("timeout", 20000)
+    q.add(z3.Xor(z3.And(cap) if cap else z3.BoolVal(True), R))
+    v = str(q.check())
+    stats["queries"] += 1
+    if v == "sat":
+        m = q.model()
+        pins = []
+        for var in s.variables:
+            mv = m.eval(env.z(var), model_completion=True)
+            pins.append(bool(z3.is_true(mv)) if isinstance(var, BoolVar) else mv.as_long())
+        issues.append({"kind": "nonequivalent", "step": step, "pins": pins,
+                       "detail": "z3 program differs from the reference meaning at %r" % (pins,)})
+        return False
+    if v != "unsat":
+        issues.append({"kind": "inconclusive", "step": step, "detail": v})
+        return False
+    q = z3.Solver()
+    q.set("timeout", 20000)
+    q.add(R)
+    v = str(q.check())
+    stats["queries"] += 1
+    stats["solver_s"] += time.time() - t0
+    if v not in ("sat", "unsat"):
+        issues.append({"kind": "inconclusive", "step": step, "detail": v})
+        return False
+    stats[v] += 1
+    if ret is not True and ret is not False:
+        issues.append({"kind": "verdict", "step": step, "detail": "find_answer returned %r" % (ret,)})
+        return False
+    if ret != (v == "sat"):
+        issues.append({"kind": "verdict", "step": step, "detail": "find_answer=%r but reference formula is %s" % (ret, v)})
+        return False
+    if ret:
+        subs = []
+        for var in s.variables:
+            val = var.sol
+            if isinstance(var, BoolVar):
+                if type(val) is not bool:
+                    issues.append({"kind": "model", "step": step, "detail": "sol of %r is %r" % (var.id, val)})
+                    return False
+                subs.append((env.z(var), z3.BoolVal(val)))
+            else:
+                lo, hi = decl[id(var)]
+                if type(val) is not int or not (lo <= val <= hi):
+                    issues.append({"kind": "model", "step": step, "detail": "sol of %r is %r, declared domain [%d, %d]" % (var.id, val, lo, hi)})
+                    return False
+                subs.append((env.z(var), z3.IntVal(val)))
+        if not z3.is_true(z3.simplify(z3.substitute(R, *subs))):
+            issues.append({"kind": "model", "step": step,
+                           "detail": "sol values %r do not satisfy the constraints" % ([x.sol for x in s.variables],)})
+            return False
+    return True
+
+
+def aug_steps(p, bv, iv):
+    """generator for an augmented-assignment session: yields (constraint, description) pairs; between the two the SAME Python
+    name is updated with += / -= / &= / |= / ^= - the constraint posted before must keep its meaning"""
+    a = p["aug"]
+    t = trees.mk(a["init"], bv, iv)
+    from cspuz.expr import Expr
+    if not isinstance(t, Expr):
+        raise trees.Unbuildable()
+
+    def cmp_of(node, desc, c):
+        if c[0] == "truth":
+            return (node if c[1] else ~node), (desc if c[1] else ("not", desc))
+        k = c[1]
+        return ({"le": lambda: node <= k, "ge": lambda: node >= k, "eq": lambda: node == k, "ne": lambda: node != k}[c[0]](),
+                (c[0], desc, ("lit", k)))
+    yield cmp_of(t, a["init"], a["c1"])
+    x = trees.mk(a["operand"], bv, iv)
+    op = a["op"]
+    if op == "add":
+        t += x
+    elif op == "sub":
+        t -= x
+    elif op == "and":
+        t &= x
+    elif op == "or":
+        t |= x
+    else:
+        t ^= x
+    yield cmp_of(t, (op, a["init"], a["operand"]), a["c2"])
+
+
 def check_program(p):
-    """p = {order, doms, steps:[tree]} ; returns list of issue dicts (empty = all prefixes fine) + stats"""
+    """p = {order, doms, steps:[tree]} (or an 'aug' session); returns list of issue dicts (empty = all prefixes fine) + stats"""
     issues = []
     stats = {"queries": 0, "prefixes": 0, "solver_s": 0.0, "sat": 0, "unsat": 0}
     s = Solver()
     bv, iv = declare(s, p["order"], p["doms"])
+    decl = declared(p, iv)
     env = ref.Env(prefix="")
     posted = []        # descriptions actually posted so far (their documented meaning is the reference)
-    for step, tj in enumerate(p["steps"]):
-        t = tj
-        try:
-            c = trees.mk(t, bv, iv)
-        except trees.Unbuildable:
-            continue
-        except Exception as e:
-            issues.append({"kind": "construct-exception", "step": step, "detail": "%s: %s" % (type(e).__name__, e)})
-            break
-        try:
-            s.ensure(c)
-        except Exception as e:
-            issues.append({"kind": "ensure-exception", "step": step, "detail": "%s: %s" % (type(e).__name__, e)})
-            break
-        posted.append(t)
-        stats["prefixes"] += 1
-        # late declaration inside a session (histories): a variable declared between two solves (after the first find_answer)
-        if p.get("late") and step == 1:
-            nb = s.bool_var()
-            bv = bv + [nb]
-        _RecSolver.log = []
-        for v in s.variables:
-            v.sol = None
-        try:
-            ret = s.find_answer(backend="z3")
-        except Exception as e:
-            issues.append({"kind": "exception", "step": step, "detail": "%s: %s" % (type(e).__name__, str(e)[:200])})
-            break
-        # reference formula
-        zb = [env.z(v) for v in bv]
-        zi = [env.z(v) for v in iv]
-        R = z3.And(env.domain(s.variables), *[trees.ref_desc(x, zb, zi) for x in posted])
-        cap = []
-        bad = False
-        for a in _flatten_args(_RecSolver.log):
-            la = _lift(a)
-            if la is None:
-                issues.append({"kind": "nonequivalent", "step": step, "detail": "untranslated constraint handed to z3: %r" % (a,)})
-                bad = True
-                break
-            cap.append(la)
-        if bad:
-            break
-        t0 = time.time()
-        q = z3.Solver()
-        q.set("timeout", 20000)
-        q.add(z3.Xor(z3.And(cap) if cap else z3.BoolVal(True), R))
-        v = str(q.check())
-        stats["queries"] += 1
-        if v == "sat":
-            m = q.model()
-            pins = []
-            for var in s.variables:
-                mv = m.eval(env.z(var), model_completion=True)
-                pins.append(bool(z3.is_true(mv)) if isinstance(var, BoolVar) else mv.as_long())
-            issues.append({"kind": "nonequivalent", "step": step, "pins": pins,
-                           "detail": "z3 program differs from the reference meaning at %r" % (pins,)})
-            break
-        if v != "unsat":
-            issues.append({"kind": "inconclusive", "step": step, "detail": v})
-            break
-        q = z3.Solver()
-        q.set("timeout", 20000)
-        q.add(R)
-        v = str(q.check())
-        stats["queries"] += 1
-        stats["solver_s"] += time.time() - t0
-        if v not in ("sat", "unsat"):
-            issues.append({"kind": "inconclusive", "step": step, "detail": v})
-            break
-        stats[v] += 1
-        if ret is not True and ret is not False:
-            issues.append({"kind": "verdict", "step": step, "detail": "find_answer returned %r" % (ret,)})
-            break
-        if ret != (v == "sat"):
-            issues.append({"kind": "verdict", "step": step, "detail": "find_answer=%r but reference formula is %s" % (ret, v)})
-            break
-        if ret:
-            subs = []
-            ok = True
-            for var in s.variables:
-                val = var.sol
-                if isinstance(var, BoolVar):
-                    if type(val) is not bool:
-                        ok = False
+    import cspuz
+    saved_tmo = cspuz.config.solver_timeout
+    _RecSolver.expire = bool(p.get("limit"))
+    if p.get("limit"):
+        cspuz.config.solver_timeout = 5.0        # a time limit is configured; the stub lets it expire if the back end applies it
+    try:
+        if p.get("aug"):
+            try:
+                gen = aug_steps(p, bv, iv)
+                for step in range(2):
+                    c, desc = next(gen)
+                    s.ensure(c)
+                    posted.append(desc)
+                    stats["prefixes"] += 1
+                    _RecSolver.log = []
+                    for v in s.variables:
+                        v.sol = None
+                    ret = s.find_answer(backend="z3")
+                    if not _judge(s, env, bv, iv, decl, posted, ret, step, issues, stats):
                         break
-                    subs.append((env.z(var), z3.BoolVal(val)))
-                else:
-                    if type(val) is not int or not (var.lo <= val <= var.hi):
-                        ok = False
-                        break
-                    subs.append((env.z(var), z3.IntVal(val)))
-            if not ok:
-                issues.append({"kind": "model", "step": step, "detail": "sol of %r is %r" % (var.id, val)})
+            except trees.Unbuildable:
+                pass
+            except Exception as e:
+                issues.append({"kind": "exception", "step": len(posted), "detail": "%s: %s" % (type(e).__name__, str(e)[:200])})
+            return issues, stats
+        for step, tj in enumerate(p["steps"]):
+            t = tj
+            try:
+                c = trees.mk(t, bv, iv)
+            except trees.Unbuildable:
+                continue
+            except Exception as e:
+                issues.append({"kind": "construct-exception", "step": step, "detail": "%s: %s" % (type(e).__name__, e)})
                 break
-            if not z3.is_true(z3.simplify(z3.substitute(R, *subs))):
-                issues.append({"kind": "model", "step": step,
-                               "detail": "sol values %r do not satisfy the constraints" % ([x.sol for x in s.variables],)})
+            try:
+                s.ensure(c)
+            except Exception as e:
+                issues.append({"kind": "ensure-exception", "step": step, "detail": "%s: %s" % (type(e).__name__, e)})
                 break
+            posted.append(t)
+            stats["prefixes"] += 1
+            # late declaration inside a session (histories): a variable declared between two solves (after the first find_answer)
+            if p.get("late") and step == 1:
+                nb = s.bool_var()
+                bv = bv + [nb]
+            _RecSolver.log = []
+            for v in s.variables:
+                v.sol = None
+            try:
+                ret = s.find_answer(backend="z3")
+            except Exception as e:
+                if p.get("limit"):
+                    continue          # with an expired time limit 'no answer' (an exception) is acceptable; a wrong answer is not
+                issues.append({"kind": "exception", "step": step, "detail": "%s: %s" % (type(e).__name__, str(e)[:200])})
+                break
+            if not _judge(s, env, bv, iv, decl, posted, ret, step, issues, stats):
+                break
+    finally:
+        cspuz.config.solver_timeout = saved_tmo
+        _RecSolver.expire = False
     return issues, stats
 
 
@@ -201,89 +289,116 @@ def _worker(chunk):
     return out
 
 
-def brute_force(p, upto_step):
-    """solver-free oracle for replay: enumerate the (small) domains, evaluate with pyeval"""
+def run_session(p, upto_step, solve_last=True):
+    """the same actions as check_program up to (and including) step upto_step on a fresh Solver: ensure + find_answer after every
+    step.  Returns (solver, bv, iv, posted descriptions, verdict of the last find_answer or None)"""
     s = Solver()
     bv, iv = declare(s, p["order"], p["doms"])
+    posted = []
+    ret = None
+    if p.get("aug"):
+        gen = aug_steps(p, bv, iv)
+        for step in range(min(upto_step, 1) + 1):
+            c, desc = next(gen)
+            s.ensure(c)
+            posted.append(desc)
+            if step < upto_step or solve_last:
+                ret = s.find_answer(backend="z3")
+        return s, bv, iv, posted, ret
     for step, t in enumerate(p["steps"][:upto_step + 1]):
         try:
             s.ensure(trees.mk(t, bv, iv))
         except trees.Unbuildable:
             continue
+        posted.append(t)
         if p.get("late") and step == 1:
             bv = bv + [s.bool_var()]
+        if step < upto_step or solve_last:
+            try:
+                ret = s.find_answer(backend="z3")
+            except Exception:
+                if not p.get("limit"):
+                    raise
+                ret = None
+    return s, bv, iv, posted, ret
+
+
+def brute_force(p, s, bv, iv, posted):
+    """solver-free oracle for replay: enumerate the DECLARED domains, evaluate the posted descriptions with py_desc"""
+    decl = declared(p, iv)
     vs = s.variables
-    posted = []
-    for t in p["steps"][:upto_step + 1]:
-        if trees.buildable(t):
-            posted.append(t)
-    ranges = [(False, True) if isinstance(v, BoolVar) else range(v.lo, v.hi + 1) for v in vs]
+    ranges = [(False, True) if isinstance(v, BoolVar) else range(decl[id(v)][0], decl[id(v)][1] + 1) for v in vs]
     for combo in itertools.product(*ranges):
         a = {id(v): x for v, x in zip(vs, combo)}
         if all(trees.py_desc(t, [a[id(v)] for v in bv], [a[id(v)] for v in iv]) for t in posted):
-            return s, True
-    return s, False
+            return True
+    return False
 
 
 def replay(payload, verbose=False):
+    import cspuz
     p = dict(payload["program"])
-    p["steps"] = [trees.from_json(t) for t in p["steps"]]
+    p["steps"] = [trees.from_json(t) for t in p.get("steps", [])]
     p["doms"] = [tuple(d) for d in p["doms"]]
+    if p.get("aug"):
+        p["aug"] = {k: (trees.from_json(v) if k in ("init", "operand") else (tuple(v) if isinstance(v, list) else v)) for k, v in p["aug"].items()}
     step = payload["step"]
     size = 1
     for lo, hi in p["doms"]:
-        size *= hi - lo + 1
-    s, bf = brute_force(p, step) if size <= 20000 else (None, None)
-    s2 = Solver()
-    bv, iv = declare(s2, p["order"], p["doms"])
+        size *= max(0, hi - lo + 1)
+    install_proxy()
+    saved_tmo = cspuz.config.solver_timeout
+    _RecSolver.expire = bool(p.get("limit"))
+    _RecSolver.log = None
+    if p.get("limit"):
+        cspuz.config.solver_timeout = 5.0
     try:
-        ret = None
-        for k, t in enumerate(p["steps"][:step + 1]):
-            try:
-                s2.ensure(trees.mk(t, bv, iv))
-            except trees.Unbuildable:
-                continue
-            if p.get("late") and k == 1:
-                bv = bv + [s2.bool_var()]
-            if k < step:
-                s2.find_answer(backend="z3")          # the same history as in the check: a solve after every step
-        if payload.get("pins") is not None:
-            # a point where the emitted z3 program and the reference meaning differ: pin every variable to it
-            a = {}
-            for v, val in zip(s2.variables, payload["pins"]):
-                a[id(v)] = val
-                s2.ensure((v if val else ~v) if isinstance(v, BoolVar) else (v == val))
-            posted = [t for t in p["steps"][:step + 1] if trees.buildable(t)]
-            want = all(trees.py_desc(t, [a[id(v)] for v in bv], [a[id(v)] for v in iv]) for t in posted)
-            ret = s2.find_answer(backend="z3")
-            if verbose:
-                print("pinned %r: find_answer=%r plain evaluation=%r" % (payload["pins"], ret, want))
-            return ret != want
-        ret = s2.find_answer(backend="z3")
-    except Exception as e:
-        if verbose:
-            print("real code raised %s: %s" % (type(e).__name__, e))
-        return True
-    if bf is None:
-        return False
-    if verbose:
-        print("find_answer=%r brute-force satisfiable=%r" % (ret, bf))
-    if ret != bf:
-        return True
-    if ret:
-        a = {id(v): v.sol for v in s2.variables}
         try:
-            posted = [t for t in p["steps"][:step + 1] if trees.buildable(t)]
-            if not all(trees.py_desc(t, [a[id(v)] for v in bv], [a[id(v)] for v in iv]) for t in posted):
-                return True
-        except Exception:
+            if payload.get("pins") is not None:
+                # a point where the emitted z3 program and the reference meaning differ: pin every variable to it
+                s2, bv, iv, posted, _ = run_session(p, step, solve_last=False)
+                a = {}
+                for v, val in zip(s2.variables, payload["pins"]):
+                    a[id(v)] = val
+                    s2.ensure((v if val else ~v) if isinstance(v, BoolVar) else (v == val))
+                decl = declared(p, iv)
+                inside = all(decl[id(v)][0] <= a[id(v)] <= decl[id(v)][1] for v in iv)
+                want = inside and all(trees.py_desc(t, [a[id(v)] for v in bv], [a[id(v)] for v in iv]) for t in posted)
+                ret = s2.find_answer(backend="z3")
+                if verbose:
+                    print("pinned %r: find_answer=%r plain evaluation=%r" % (payload["pins"], ret, want))
+                return ret != want
+            s2, bv, iv, posted, ret = run_session(p, step)
+        except Exception as e:
+            if verbose:
+                print("real code raised %s: %s" % (type(e).__name__, e))
             return True
-        for v in s2.variables:
-            if isinstance(v, IntVar) and not (type(v.sol) is int and v.lo <= v.sol <= v.hi):
+        if size > 20000:
+            return False
+        bf = brute_force(p, s2, bv, iv, posted)
+        if verbose:
+            print("find_answer=%r brute-force satisfiable=%r" % (ret, bf))
+        if ret is None and p.get("limit"):
+            return False
+        if ret != bf:
+            return True
+        if ret:
+            a = {id(v): v.sol for v in s2.variables}
+            decl = declared(p, iv)
+            for v in s2.variables:
+                if isinstance(v, IntVar) and not (type(v.sol) is int and decl[id(v)][0] <= v.sol <= decl[id(v)][1]):
+                    return True
+                if isinstance(v, BoolVar) and type(v.sol) is not bool:
+                    return True
+            try:
+                if not all(trees.py_desc(t, [a[id(v)] for v in bv], [a[id(v)] for v in iv]) for t in posted):
+                    return True
+            except Exception:
                 return True
-            if isinstance(v, BoolVar) and type(v.sol) is not bool:
-                return True
-    return False
+        return False
+    finally:
+        cspuz.config.solver_timeout = saved_tmo
+        _RecSolver.expire = False
 
 
 def programs(tier, rng):
@@ -310,6 +425,32 @@ def programs(tier, rng):
         n = rng.randint(2, 4)
         steps = [trees.as_constraint(rng, trees.random_tree(rng, rng.choice("BI"), rng.randint(1, 3))) for _ in range(n)]
         out.append(prog(steps, late=(k % 3 == 0)))
+    # (4) a configured time limit that expires if the back end applies it (environment stub): no wrong verdict may come out of it
+    for k in range(40 if tier == "quick" else 200):
+        n = rng.randint(1, 3)
+        q = prog([trees.as_constraint(rng, trees.random_tree(rng, rng.choice("BI"), rng.randint(1, 2))) for _ in range(n)])
+        q["limit"] = True
+        out.append(q)
+    # (5) augmented assignment on a name whose node is already part of a posted constraint
+    int_inits = [("add", ("iv", 0), ("iv", 1)), ("sub", ("iv", 0), ("iv", 1)), ("add", ("iv", 0), ("lit", 1)), ("neg", ("iv", 0)),
+                 ("nadd", [("iv", 0), ("iv", 1), ("lit", 1)]), ("iv", 0), ("count_true", [("bv", 0), ("bv", 1)])]
+    int_operands = [("iv", 1), ("iv", 0), ("lit", 2), ("lit", -1), ("add", ("iv", 0), ("iv", 1))]
+    bool_inits = [("or", ("bv", 0), ("bv", 1)), ("and", ("bv", 0), ("bv", 1)), ("xor", ("bv", 0), ("bv", 1)), ("not", ("bv", 0)), ("bv", 0),
+                  ("fold_or", [("bv", 0), ("bv", 1)]), ("ge", ("iv", 0), ("lit", 1))]
+    bool_operands = [("bv", 1), ("bv", 0), ("lit", True), ("lit", False), ("ge", ("iv", 1), ("lit", 0))]
+    for init in int_inits:
+        for op in ("add", "sub"):
+            for operand in int_operands:
+                q = prog([])
+                q["aug"] = {"init": init, "op": op, "operand": operand, "c1": (rng.choice(["le", "ge", "eq", "ne"]), rng.choice([-1, 0, 1, 3])),
+                            "c2": (rng.choice(["le", "ge", "eq", "ne"]), rng.choice([-1, 0, 2, 4]))}
+                out.append(q)
+    for init in bool_inits:
+        for op in ("and", "or", "xor"):
+            for operand in bool_operands:
+                q = prog([])
+                q["aug"] = {"init": init, "op": op, "operand": operand, "c1": ("truth", rng.random() < 0.5), "c2": ("truth", rng.random() < 0.5)}
+                out.append(q)
     return out
 
 
@@ -332,9 +473,13 @@ def run(tier, only=None):
         rep.extra["ref_sat"] = rep.extra.get("ref_sat", 0) + stats.get("sat", 0)
         rep.extra["ref_unsat"] = rep.extra.get("ref_unsat", 0) + stats.get("unsat", 0)
         pj = {"order": p["order"], "doms": p["doms"], "late": p.get("late", False), "steps": [trees.to_json(t) for t in p["steps"]]}
+        if p.get("limit"):
+            pj["limit"] = True
+        if p.get("aug"):
+            pj["aug"] = {k: (trees.to_json(v) if k in ("init", "operand") else v) for k, v in p["aug"].items()}
         if not issues:
             rep.ok(max(1, stats.get("prefixes", 1)))
-            rep.distinct.add(repr(pj["steps"]))
+            rep.distinct.add(repr(pj["steps"]) + repr(pj.get("aug")) + repr(pj.get("limit")))
             if rep.programs % 400 == 1:
                 rep.sample({"program": pj, "prefixes_checked": stats.get("prefixes")})
             continue
@@ -346,8 +491,7 @@ def run(tier, only=None):
             else:
                 payload = {"program": pj, "step": it.get("step", 0), "kind": it["kind"], "pins": it.get("pins")}
                 ok = replay(payload)
-                root = p["steps"][it.get("step", 0)][0]
-                rep.counterexample(it["kind"], "%s at step %d of %s: %s" % (it["kind"], it.get("step", 0), pj["steps"], it["detail"]),
+                rep.counterexample(it["kind"], "%s at step %d of %s: %s" % (it["kind"], it.get("step", 0), pj.get("aug") or pj["steps"], it["detail"]),
                                    payload, ok)
     rep.functions = ["cspuz.solver.Solver.ensure/find_answer/bool_var/int_var", "cspuz.backend.z3.Z3Backend.__init__/add_constraint/solve",
                      "cspuz.backend.z3._convert_expr", "cspuz.expr operators (dunder methods, cond, then)",
@@ -357,12 +501,16 @@ def run(tier, only=None):
                            "constructor pair at depth 2%s; random sessions of 2-4 constraints of depth <= 3" % (
                                "" if tier == "quick" else " and 3"),
                   "variables": "2 booleans + 2 integers (+1 late boolean), domains from %r, 4 declaration orders" % (DOMAINS,),
-                  "histories": "find_answer after every ensure (every prefix), optional declaration between solves"}
+                  "histories": "find_answer after every ensure (every prefix), optional declaration between solves; augmented assignment "
+                               "(+= -= &= |= ^=) on a name whose node already sits in a posted constraint (7 x 2 x 5 integer and 7 x 3 x 5 boolean forms)",
+                  "time limit": "programs solved with config.solver_timeout set and a z3.Solver stub that answers unknown once a timeout has "
+                                "been set on it: an exception is acceptable, a verdict must be right"}
     rep.outside = ["deeper trees / more variables (covered only by compositionality of the per-constructor cases)",
-                   "z3 answering unknown (the real back end treats it as sat; the DSL has no nonlinear terms)"]
+                   "z3 answering unknown without any time limit set (the DSL has no nonlinear terms)"]
     rep.assumptions = ["the documented meaning of each public constructor as written in vlib/ea/trees.py (ref_desc / py_desc), independent of the trees the library builds",
                        "z3 5.1.0 sound; it is also the back end under test (separate Solver objects, different formulas)",
-                       "captured program = every argument of z3.Solver.add() inside the real Z3Backend.solve (proxy of the module global z3)"]
+                       "captured program = every argument of z3.Solver.add() inside the real Z3Backend.solve (proxy of the module global z3)",
+                       "variable domains are taken from the program text (the declaration), never read back from the variable objects"]
     return rep.finish("For each program the real Solver/Z3Backend run; everything the back end add()s to z3 is captured and z3 decides "
                       "captured <=> (domains & reference translation) over all variable values (Xor unsat); find_answer's verdict is "
                       "compared with z3 on the reference formula; returned sol values are substituted into the reference formula "
